@@ -76,7 +76,10 @@ def n_ops(e):
 
 
 # ------------------------------------------------------------ conversions
-def to_impl(e):
+MIXED = {1: 1, 2: "1", 3: 2, 4: "2", 5: 1.5, 6: "1.5"}     # distinct symbols that print alike
+
+
+def to_impl(e, symmap=None):
     from codelimit.common.gsm.operator.OneOrMore import OneOrMore
     from codelimit.common.gsm.operator.Optional import Optional
     from codelimit.common.gsm.operator.Union import Union
@@ -85,7 +88,7 @@ def to_impl(e):
     def op(o):
         t = o[0]
         if t == "A":
-            return o[1]
+            return o[1] if symmap is None else symmap[o[1]]
         if t == "U":
             return Union(seq(o[1]), seq(o[2]))
         return {"O": Optional, "S": ZeroOrMore, "P": OneOrMore}[t](seq(o[1]))
@@ -252,17 +255,17 @@ def guarded(fn):
         return [1, ERR[type(ex).__name__]]
 
 
-def impl_obs(e, w):
+def impl_obs(e, w, symmap=None):
     """[match, nfa_match, starts_with, find_all] in the encoding of Gsm/Dfa.v engine_obs,
     plus the raw find_all records (start, end, tokens) for the oracle"""
     from codelimit.common.gsm import matcher
-    ex = to_impl(e)
-    w = list(w)
-    m = guarded(lambda: matcher.match(to_impl(e), w) is not None)
-    n = guarded(lambda: bool(matcher.nfa_match(to_impl(e), w)))
+    ex = to_impl(e, symmap)
+    w = list(w) if symmap is None else [symmap[x] for x in w]
+    m = guarded(lambda: matcher.match(to_impl(e, symmap), w) is not None)
+    n = guarded(lambda: bool(matcher.nfa_match(to_impl(e, symmap), w)))
 
     def sw():
-        p = matcher.starts_with(to_impl(e), w)
+        p = matcher.starts_with(to_impl(e, symmap), w)
         return [] if p is None else [p.end]
     s = guarded(sw)
     raw = []
